@@ -22,6 +22,9 @@ type GenOpts struct {
 	IdbFacts bool
 	// FactsAfter prints some of the facts of the text after the rules (the usual style is facts first).
 	FactsAfter bool
+	// Boundary: a few numbers in facts and in constants of rules are integers far apart (MinInt64, MaxInt64, +-2^62),
+	// so that comparisons meet operands whose difference overflows.
+	Boundary bool
 	// NegFront writes all negated atoms of some rules first, before every atom that binds their variables,
 	// and gives such rules up to four positive atoms (analysis has to delay and release them one by one).
 	NegFront bool
@@ -31,7 +34,7 @@ type GenOpts struct {
 
 // AllFeatures enables everything C01 covers.
 var AllFeatures = GenOpts{Neg: true, Cmp: true, Neq: true, Eq: true, Arith: true, Struct: true, Let: true, NegAnywhere: true,
-	IdbFacts: true, FactsAfter: true, NegFront: true}
+	IdbFacts: true, FactsAfter: true, NegFront: true, Boundary: true}
 
 // Column types: n number, a name, p pair(n, n), l list of numbers.
 type PredInfo struct {
@@ -50,6 +53,17 @@ type Generated struct {
 
 var numDomain = []int64{0, 1, 2, 3, 4}
 var nameDomain = []string{"/a", "/b", "/c"}
+
+// boundaryNums: integers far apart (differences overflow int64).
+var boundaryNums = []int64{-9223372036854775808, 9223372036854775807, -4611686018427387904, 4611686018427387904, -1}
+
+// genValueB is genValue with boundary integers (about 3 % of the numbers) when boundary is set.
+func genValueB(t *rapid.T, typ byte, boundary bool) val.V {
+	if typ == 'n' && boundary && rapid.IntRange(0, 29).Draw(t, "boundaryNum") == 0 {
+		return val.I(rapid.SampledFrom(boundaryNums).Draw(t, "bnum"))
+	}
+	return genValue(t, typ)
+}
 
 func genValue(t *rapid.T, typ byte) val.V {
 	switch typ {
@@ -115,7 +129,7 @@ func (g *ruleGen) boundArg(typ byte) Term {
 	if len(g.bound[typ]) > 0 && rapid.IntRange(0, 9).Draw(g.t, "usevar") < 8 {
 		return Var(rapid.SampledFrom(g.bound[typ]).Draw(g.t, "bvar"))
 	}
-	return Const(genValue(g.t, typ))
+	return Const(genValueB(g.t, typ, g.o.Boundary))
 }
 
 // Gen draws a safe, stratifiable, type-consistent program.
@@ -169,7 +183,7 @@ func gen(t *rapid.T, o GenOpts) Generated {
 		for f := 0; f < nf; f++ {
 			a := Atom{Pred: p.Name}
 			for c := 0; c < len(p.Cols); c++ {
-				a.Args = append(a.Args, Const(genValue(t, p.Cols[c])))
+				a.Args = append(a.Args, Const(genValueB(t, p.Cols[c], o.Boundary)))
 			}
 			if a.Args == nil {
 				a.Args = []Term{}
